@@ -291,6 +291,15 @@ class Env:
             if A.get('next') and rec['kind'] in ('imap', 'imap_unordered') \
                     and not rec.get('exhausted') and 'gen' not in rec:
                 evs.append(('next', j))
+        if A.get('terminate_worker'):
+            # the user terminates whatever job runs on a worker it knows to
+            # be busy (terminate_job takes a pid; nothing ties it to apply)
+            for p in pool._pool:
+                w = self.workers[p.pid]
+                if w.alive and w.phase == 'acked' and not w.term and \
+                        p.pid not in self.tjob_pids and \
+                        not getattr(p, '_controlled_termination', False):
+                    evs.append(('tjobw', p.pid))
         if A.get('close') and not self.closed and any(
                 w.alive and not w.term and
                 not getattr(p, '_controlled_termination', False)
@@ -492,6 +501,14 @@ class Env:
         for r2 in self.jobs:
             # whatever really runs (or died) unfinished in that process is
             # what the termination hits
+            if any(p.get('pid') == pid and p.get('state') in ('taken', 'lost')
+                   for p in r2['parts'].values()):
+                r2['hit'] = True
+        self.pool.terminate_job(pid)
+
+    def ev_tjobw(self, pid):
+        self.tjob_pids.add(pid)
+        for r2 in self.jobs:
             if any(p.get('pid') == pid and p.get('state') in ('taken', 'lost')
                    for p in r2['parts'].values()):
                 r2['hit'] = True
